@@ -19,23 +19,24 @@ Section FP.
   Proof. induction l as [|x [|y l] IH]; cbn [removelast length] in *; try reflexivity. rewrite IH. cbn. lia. Qed.
   Lemma set_normal_verts (L L' : Loop K) : loop_set_normal L = Ok L' -> verts L' = verts L.
   Proof. unfold loop_set_normal. destruct (verts L) as [|a [|b [|c l]]] eqn:E; try discriminate. intros H; inversion H; subst. cbn [verts set_normal_field]. exact E. Qed.
+  Lemma firstn_incl' {A} (k : nat) (l : list A) : incl (firstn k l) l.
+  Proof. revert l. induction k as [|k IH]; intros [|x l]; cbn [firstn]; try (intros w []; fail). intros w [<-|Hw]; [left; reflexivity | right; apply (IH l); exact Hw]. Qed.
   Lemma push_verts (L L' : Loop K) (p : V) : loop_push L p = Ok L' -> incl (verts L') (p :: verts L) /\ llen L' <= S (llen L).
   Proof.
-    unfold loop_push, loop_push_gen, loop_push_gen2. cbn [negb andb]. destruct (valid_to_add L p); cbn [rbind]; try discriminate.
+    unfold loop_push. destruct (valid_to_add L p); cbn [rbind]; try discriminate.
     assert (G : forall vs, incl vs (p :: verts L) -> length vs <= S (llen L) ->
-                (if Nat.eqb (length vs) 3 then loop_set_normal (set_verts L vs) else Ok (set_verts L vs)) = Ok L' ->
+                (if Nat.eqb (length vs) 3 then loop_set_normal (set_verts L vs)
+                 else if Nat.ltb (length vs) 3 then Ok (set_normal_field (set_verts L vs) vzero) else Ok (set_verts L vs)) = Ok L' ->
                 incl (verts L') (p :: verts L) /\ llen L' <= S (llen L)).
     { intros vs Hi Hl H. destruct (Nat.eqb (length vs) 3).
       - apply set_normal_verts in H. unfold llen. rewrite H. cbn [verts set_verts]. split; assumption.
-      - inversion H; subst. unfold llen. cbn [verts set_verts]. split; assumption. }
+      - destruct (Nat.ltb (length vs) 3); inversion H; subst; unfold llen; cbn [verts set_verts set_normal_field]; split; assumption. }
     destruct (Nat.leb 2 (llen L)) eqn:E2.
     - destruct (vcompare _ p).
       { cbn [rbind]. apply G; [intros z Hz; right; apply removelast_incl; exact Hz | rewrite removelast_length; unfold llen; lia]. }
-      destruct (is_collinear _ _ p) as [col| |]; cbn [rbind]; try discriminate. apply G.
-      + destruct col.
-        * unfold replace_last. intros z Hz. apply in_app_or in Hz. destruct Hz as [Hz|[<-|[]]]; [right; apply removelast_incl; exact Hz | left; reflexivity].
-        * intros z Hz. apply in_app_or in Hz. destruct Hz as [Hz|[<-|[]]]; [right; exact Hz | left; reflexivity].
-      + destruct col; [unfold replace_last|]; rewrite app_length; cbn [length]; [rewrite removelast_length|]; unfold llen; lia.
+      destruct (push_keep _ p _ _) as [keep| |]; cbn [rbind]; try discriminate. apply G.
+      + intros z Hz. apply in_app_or in Hz. destruct Hz as [Hz|[<-|[]]]; [right; apply (firstn_incl' keep); exact Hz | left; reflexivity].
+      + rewrite app_length, firstn_length. cbn [length]. unfold llen. lia.
     - cbn [rbind]. apply G.
       + intros z Hz. apply in_app_or in Hz. destruct Hz as [Hz|[<-|[]]]; [right; exact Hz | left; reflexivity].
       + rewrite app_length; cbn [length]; unfold llen; lia.
@@ -46,24 +47,46 @@ Section FP.
   Proof. unfold loop_set_perimeter. destruct (negb _); [discriminate|]. destruct (vis_zero _); [discriminate|]. destruct (Nat.ltb _ _); [discriminate|]. intros H; inversion H; reflexivity. Qed.
   Lemma tl_incl {A} (l : list A) : incl (tl l) l.
   Proof. destruct l; [apply incl_refl | intros z Hz; right; exact Hz]. Qed.
+  Lemma pop_redundant_verts (fuel : nat) : forall vs : list V,
+    incl (fst (pop_redundant vs fuel)) vs /\ length (fst (pop_redundant vs fuel)) <= length vs.
+  Proof.
+    induction fuel as [|f IH]; intros vs; cbn [pop_redundant]; [cbn [fst]; split; [apply incl_refl | lia]|].
+    destruct (last_is_redundant vs) as [[|]| |]; cbn [fst]; try (split; [apply incl_refl | lia]).
+    destruct (IH (removelast vs)) as [I N]. split; [eapply incl_tran; [exact I | apply removelast_incl] | rewrite removelast_length in N; lia].
+  Qed.
+  Lemma drop_first_redundant_verts (fuel : nat) : forall vs : list V,
+    incl (fst (drop_first_redundant vs fuel)) vs /\ length (fst (drop_first_redundant vs fuel)) <= length vs.
+  Proof.
+    induction fuel as [|f IH]; intros vs; cbn [drop_first_redundant]; [cbn [fst]; split; [apply incl_refl | lia]|].
+    destruct (Nat.ltb (length vs) 3); [cbn [fst]; split; [apply incl_refl | lia]|].
+    destruct (is_collinear _ _ _) as [[|]| |]; cbn [fst]; try (split; [apply incl_refl | lia]).
+    pose proof (pop_redundant_verts (length vs) (tl vs)) as [I1 N1]. destruct (pop_redundant (tl vs) (length vs)) as [vs1 r]. cbn [fst] in I1, N1.
+    assert (N0 : length (tl vs) <= length vs) by (destruct vs; cbn; lia).
+    assert (G1 : incl vs1 vs /\ length vs1 <= length vs) by (split; [eapply incl_tran; [exact I1 | apply tl_incl] | lia]).
+    destruct r; cbn [fst]; try exact G1.
+    destruct (IH vs1) as [I2 N2]. split; [eapply incl_tran; [exact I2 | apply G1] | lia].
+  Qed.
   Lemma close_verts (L : Loop K) : incl (verts (fst (loop_close L))) (verts L) /\ llen (fst (loop_close L)) <= llen L.
   Proof.
-    unfold loop_close. destruct (Nat.ltb (llen L) 3); [cbn [fst]; split; [apply incl_refl | lia]|].
-    destruct (is_collinear _ _ _) as [c1| |]; cbn [fst]; try (split; [apply incl_refl | lia]).
-    set (L1 := if c1 then set_verts L (removelast (verts L)) else L).
-    assert (G1 : incl (verts L1) (verts L) /\ llen L1 <= llen L).
-    { unfold L1, llen. destruct c1; cbn [verts set_verts]; [split; [apply removelast_incl | rewrite removelast_length; lia] | split; [apply incl_refl | lia]]. }
-    destruct (valid_to_add L1 _); cbn [fst]; try exact G1.
-    destruct (is_collinear _ _ _) as [c2| |]; cbn [fst]; try exact G1.
-    set (L2 := if c2 then set_verts L1 (tl (verts L1)) else L1).
-    assert (G2 : incl (verts L2) (verts L) /\ llen L2 <= llen L).
-    { unfold L2, llen. destruct c2; cbn [verts set_verts]; [|exact G1]. split; [eapply incl_tran; [apply tl_incl | apply G1]|].
-      destruct G1 as [_ G1]. unfold llen in G1. destruct (verts L1); cbn [tl length] in *; lia. }
-    match goal with |- context [loop_set_area ?l] => destruct (loop_set_area l) as [L4| |] eqn:E4 end; cbn [fst]; try exact G2.
+    unfold loop_close. destruct (lclosed L); [cbn [fst]; split; [apply incl_refl | lia]|].
+    destruct (Nat.ltb (llen L) 3); [cbn [fst]; split; [apply incl_refl | lia]|].
+    pose proof (pop_redundant_verts (llen L) (verts L)) as G1. destruct (pop_redundant (verts L) (llen L)) as [vs1 r1]. cbn [fst] in G1.
+    set (L1 := set_verts L vs1).
+    assert (G1' : incl (verts L1) (verts L) /\ llen L1 <= llen L) by exact G1.
+    destruct r1; cbn [fst]; try exact G1'.
+    destruct (Nat.ltb (length vs1) 3); [exact G1'|].
+    destruct (valid_to_add L1 _); cbn [fst]; try exact G1'.
+    pose proof (drop_first_redundant_verts (length vs1) vs1) as G2. destruct (drop_first_redundant vs1 (length vs1)) as [vs2 r2]. cbn [fst] in G2.
+    set (L2 := set_verts L1 vs2).
+    assert (G2' : incl (verts L2) (verts L) /\ llen L2 <= llen L).
+    { unfold L2, llen. cbn [verts set_verts]. destruct G1 as [I1 N1], G2 as [I2 N2]. split; [eapply incl_tran; eassumption | unfold llen; lia]. }
+    destruct r2; cbn [fst]; try exact G2'.
+    destruct (Nat.ltb (length vs2) 3); [exact G2'|].
+    match goal with |- context [loop_set_area ?l] => destruct (loop_set_area l) as [L4| |] eqn:E4 end; cbn [fst]; try exact G2'.
     destruct (loop_set_perimeter L4) as [L5| |] eqn:E5; cbn [fst].
-    - apply set_perimeter_verts in E5. apply set_area_verts in E4. unfold llen. rewrite E5, E4. exact G2.
-    - apply set_area_verts in E4. unfold llen. rewrite E4. exact G2.
-    - apply set_area_verts in E4. unfold llen. rewrite E4. exact G2.
+    - apply set_perimeter_verts in E5. apply set_area_verts in E4. unfold llen. rewrite E5, E4. exact G2'.
+    - apply set_area_verts in E4. unfold llen. rewrite E4. exact G2'.
+    - apply set_area_verts in E4. unfold llen. rewrite E4. exact G2'.
   Qed.
   Lemma push_all_verts : forall (vs : list V) (L L' : Loop K), push_all L vs = Ok L' ->
     incl (verts L') (verts L ++ vs) /\ llen L' <= llen L + length vs.
